@@ -36,6 +36,7 @@ type Contract struct {
 	Ensures  []*Clause
 	XEnsures []*Clause
 	Panics   []*Clause
+	Cases    []*Clause // call sites fork on these conditions (keeps callee-dependent offsets concrete)
 	Modifies []*Clause
 	Lets     []*Clause // Text = name, E = expr
 	MayPanic bool
@@ -84,20 +85,21 @@ type ContractSet struct {
 	Specs   map[string]*SpecFn
 	Lemmas  map[string]*Lemma
 	ConstGl map[string]bool // pkgpath::name of globals treated as constant after init
+	macros  map[string]*macroDef
 	Files   []string
 	Errors  []string
 }
 
 func NewContractSet() *ContractSet {
 	return &ContractSet{Funcs: map[string]*Contract{}, Ifaces: map[string]*Contract{}, Ghosts: map[string]*GhostDecl{},
-		Specs: map[string]*SpecFn{}, Lemmas: map[string]*Lemma{}, ConstGl: map[string]bool{}}
+		Specs: map[string]*SpecFn{}, Lemmas: map[string]*Lemma{}, ConstGl: map[string]bool{}, macros: map[string]*macroDef{}}
 }
 
 var ctPrefix = regexp.MustCompile(`^\s*//\s?@ ?(.*)$`)
 
 var clauseKeywords = map[string]bool{"requires": true, "ensures": true, "xensures": true, "panics": true, "may_panic": true,
-	"modifies": true, "inline": true, "trusted": true, "loop": true, "let": true, "noreturn": true, "pure": true, "havoc_callees": true}
-var topKeywords = map[string]bool{"func": true, "iface": true, "extern": true, "ghost": true, "spec": true, "lemma": true, "const_global": true}
+	"modifies": true, "inline": true, "trusted": true, "loop": true, "let": true, "noreturn": true, "pure": true, "havoc_callees": true, "use": true, "cases": true}
+var topKeywords = map[string]bool{"func": true, "iface": true, "extern": true, "ghost": true, "spec": true, "lemma": true, "const_global": true, "macro": true}
 
 // ParseContractFile parses one file. pkgPath is the import path the file belongs to (used to
 // resolve unqualified identifiers); for files outside /repo pass "".
@@ -171,13 +173,68 @@ func (cs *ContractSet) ParseContractText(data, path, pkgPath string) error {
 		}
 		return &Clause{Kind: kind, Text: text, Es: e.(*CallE).Args, File: path, Line: line}, nil
 	}
-	for _, s := range stmts {
+	var curMacro *macroDef
+	var handle func(s stmt) error
+	handle = func(s stmt) error {
+		if curMacro != nil && clauseKeywords[s.kw] {
+			curMacro.stmts = append(curMacro.stmts, [2]string{s.kw, s.rest})
+			return nil
+		}
+		if topKeywords[s.kw] {
+			curMacro = nil
+		}
 		switch s.kw {
+		case "macro":
+			op := strings.Index(s.rest, "(")
+			cp := strings.LastIndex(s.rest, ")")
+			if op < 0 || cp < op {
+				return fail(s.line, "macro NAME(params)")
+			}
+			m := &macroDef{name: strings.TrimSpace(s.rest[:op])}
+			for _, p := range strings.Split(s.rest[op+1:cp], ",") {
+				if p = strings.TrimSpace(p); p != "" {
+					m.params = append(m.params, p)
+				}
+			}
+			cs.macros[m.name] = m
+			curMacro = m
+			cur = nil
+		case "use":
+			if cur == nil {
+				return fail(s.line, "use outside a contract")
+			}
+			op := strings.Index(s.rest, "(")
+			cp := strings.LastIndex(s.rest, ")")
+			if op < 0 || cp < op {
+				return fail(s.line, "use NAME(args)")
+			}
+			m := cs.macros[strings.TrimSpace(s.rest[:op])]
+			if m == nil {
+				return fail(s.line, "unknown macro %q", s.rest[:op])
+			}
+			args := splitTopLevel(s.rest[op+1 : cp])
+			if len(args) != len(m.params) {
+				return fail(s.line, "macro %s takes %d arguments", m.name, len(m.params))
+			}
+			for _, ms := range m.stmts {
+				text := ms[1]
+				for i, p := range m.params {
+					re := regexp.MustCompile(`\b` + regexp.QuoteMeta(p) + `\b`)
+					text = re.ReplaceAllLiteralString(text, "("+strings.TrimSpace(args[i])+")")
+				}
+				if err := handle(stmt{ms[0], text, s.line}); err != nil {
+					return err
+				}
+			}
 		case "func", "iface", "extern":
 			cur = &Contract{Kind: s.kw, Target: strings.TrimSpace(s.rest), Pkg: pkgPath, Loops: map[int]*LoopSpec{}, File: path, Line: s.line}
 			switch s.kw {
 			case "func":
 				key := pkgPath + "::" + cur.Target
+				if strings.Contains(cur.Target, "::") {
+					key = cur.Target
+					cur.Pkg = strings.SplitN(cur.Target, "::", 2)[0]
+				}
 				if _, dup := cs.Funcs[key]; dup {
 					return fail(s.line, "duplicate contract for %s", key)
 				}
@@ -185,6 +242,9 @@ func (cs *ContractSet) ParseContractText(data, path, pkgPath string) error {
 			case "extern":
 				// Target is fully qualified: pkgpath::(*T).M or pkgpath::F
 				cur.Trusted = true
+				if strings.Contains(cur.Target, "::") {
+					cur.Pkg = strings.SplitN(cur.Target, "::", 2)[0]
+				}
 				if _, dup := cs.Funcs[cur.Target]; dup {
 					return fail(s.line, "duplicate contract for %s", cur.Target)
 				}
@@ -274,7 +334,7 @@ func (cs *ContractSet) ParseContractText(data, path, pkgPath string) error {
 				return fail(s.line, "clause %q outside a contract", s.kw)
 			}
 			switch s.kw {
-			case "requires", "ensures", "xensures", "panics":
+			case "requires", "ensures", "xensures", "panics", "cases":
 				c, err := mkClause(s.kw, s.rest, s.line)
 				if err != nil {
 					return err
@@ -288,6 +348,8 @@ func (cs *ContractSet) ParseContractText(data, path, pkgPath string) error {
 					cur.XEnsures = append(cur.XEnsures, c)
 				case "panics":
 					cur.Panics = append(cur.Panics, c)
+				case "cases":
+					cur.Cases = append(cur.Cases, c)
 				}
 			case "modifies":
 				c, err := mkList(s.kw, s.rest, s.line)
@@ -362,8 +424,43 @@ func (cs *ContractSet) ParseContractText(data, path, pkgPath string) error {
 				}
 			}
 		}
+		return nil
+	}
+	for _, s := range stmts {
+		if err := handle(s); err != nil {
+			return err
+		}
 	}
 	return nil
+}
+
+type macroDef struct {
+	name   string
+	params []string
+	stmts  [][2]string
+}
+
+// splitTopLevel splits s at commas that are not nested in parentheses/brackets.
+func splitTopLevel(s string) []string {
+	var out []string
+	depth, start := 0, 0
+	for i, r := range s {
+		switch r {
+		case '(', '[':
+			depth++
+		case ')', ']':
+			depth--
+		case ',':
+			if depth == 0 {
+				out = append(out, s[start:i])
+				start = i + 1
+			}
+		}
+	}
+	if strings.TrimSpace(s[start:]) != "" || len(out) > 0 {
+		out = append(out, s[start:])
+	}
+	return out
 }
 
 func parseParams(s string) ([]QVar, error) {
